@@ -217,6 +217,18 @@ func (f *Face) Feed(b []byte) error {
 	return cb(enc.NewBufferReader(append([]byte{}, b...)))
 }
 
+// RaiseError reports a transport error to the engine (as a face's receive loop does when the peer
+// resets or closes the connection).
+func (f *Face) RaiseError(err error) error {
+	f.mu.Lock()
+	cb := f.onError
+	f.mu.Unlock()
+	if cb == nil {
+		return errors.New("no error callback")
+	}
+	return cb(err)
+}
+
 // TakeSent returns and clears the recorded packets.
 func (f *Face) TakeSent() [][]byte {
 	f.mu.Lock()
